@@ -47,8 +47,10 @@ let () =
         let target = strip_token "@FIX@" (match get 1 with Some t -> t | None -> "/") in
         let uri = match Stdlib.String.index_opt target '?' with Some i -> Stdlib.String.sub target 0 i | None -> target in
         let with_ct = Stdlib.Array.length f > 4 && f.(4) = "ct" in
+        let ws = Stdlib.Array.length f > 5 && f.(5) = "ws" in
         let hs = (match get 0 with Some h -> [ (Http.HKnown TablesHttp.coq_H_Host, bytes_of_string h) ] | None -> [])
-                 @ (match get 3 with Some x -> [ (Http.coq_XFF, bytes_of_string x) ] | None -> []) in
+                 @ (match get 3 with Some x -> [ (Http.coq_XFF, bytes_of_string x) ] | None -> [])
+                 @ (if ws then [ (Http.HKnown TablesHttp.coq_H_Upgrade, bytes_of_string "websocket") ] else []) in
         let req = { Http.r_method = n_of_int 0; Http.r_uri = bytes_of_string uri; Http.r_query = []; Http.r_version = bytes_of_string "HTTP/1.1";
                     Http.r_headers = hs; Http.r_content = None;
                     Http.r_addr = { Http.a_origin = []; Http.a_proxies = []; Http.a_port = n_of_int 0 } } in
@@ -62,6 +64,8 @@ let () =
         | Some Server.SPanic -> "panic"
         | Some (Server.SRedirect l) -> "301:loc:" ^ hex_of_bytes l
         | Some (Server.SProxy (_, _, _)) -> "proxy"
+        | Some (Server.SWsProxy _) -> "proxy"
+        | Some Server.SClosed -> "noresp"
         | Some (Server.SStatic (StaticFs.R200 (b, ct))) ->
           "200:body:" ^ hex_of_bytes b ^ (if with_ct then ":ct:" ^ (match ct with Some c -> hex_of_bytes c | None -> "none") else "")
         | Some (Server.SStatic (StaticFs.R301 l)) -> "301:loc:" ^ hex_of_bytes l
